@@ -211,20 +211,7 @@ def _rest(ck, repo):
             ck.ob(f"{name}: returns the list of completed items", len(rets) == 1, f, rets[0] if rets else f.node, construct=f"{name}:return")
             if lp is not None:
                 ck.ob(f"{name}: failures are extracted after the loop, not inside it", not contains(lp, ex), f, ex, construct=f"{name}:extract-after-loop")
-        ex = repo.func(ERRORS, "extract_exceptions_from_results")
-        ev = FuncView(ex)
-        lp = [l for l in ev.loops() if isinstance(l, ast.For)]
-        ok = False
-        if len(lp) == 1:
-            augs = [n for n in walk_no_nested(lp[0]) if isinstance(n, ast.AugAssign) and isinstance(n.op, ast.Add)]
-            ok = len(augs) == 1 and unparse(augs[0].value) == unparse(lp[0].target) and \
-                ev.guarded(augs[0], lambda t: t == f"isinstance({unparse(lp[0].target)}, MultipleException)", "T") and \
-                unparse(lp[0].iter) == ex.positional_params[0] and \
-                not any(isinstance(n, (ast.Break, ast.Return, ast.Continue)) for n in walk_no_nested(lp[0]))
-        ck.ob("extract_exceptions_from_results concatenates every MultipleException found in the results", ok, ex, ex.node, construct="extract:concat")
-        rets = ev.returns()
-        ck.ob("extract_exceptions_from_results returns None when nothing failed", len(rets) == 1 and unparse(rets[0].value).endswith(" or None"), ex,
-              rets[0] if rets else ex.node, construct="extract:none")
+        extract_rule(ck, repo)
 
     with ck.rule("R6"):
         f = repo.func(EXECUTE, "execute_fields")
@@ -251,6 +238,24 @@ def _rest(ck, repo):
 
     with ck.rule("R8"):
         _handler_census(ck, repo)
+
+
+def extract_rule(ck, repo):
+    """Failures travel between the sequential and the concurrent paths as MultipleException values only (shared with C08.R3)."""
+    ex = repo.func(ERRORS, "extract_exceptions_from_results")
+    ev = FuncView(ex)
+    lp = [l for l in ev.loops() if isinstance(l, ast.For)]
+    ok = False
+    if len(lp) == 1:
+        augs = [n for n in walk_no_nested(lp[0]) if isinstance(n, ast.AugAssign) and isinstance(n.op, ast.Add)]
+        ok = len(augs) == 1 and unparse(augs[0].value) == unparse(lp[0].target) and \
+            ev.guarded(augs[0], lambda t: t == f"isinstance({unparse(lp[0].target)}, MultipleException)", "T") and \
+            unparse(lp[0].iter) == ex.positional_params[0] and \
+            not any(isinstance(n, (ast.Break, ast.Return, ast.Continue)) for n in walk_no_nested(lp[0]))
+    ck.ob("extract_exceptions_from_results concatenates every MultipleException found in the results", ok, ex, ex.node, construct="extract:concat")
+    rets = ev.returns()
+    ck.ob("extract_exceptions_from_results returns None when nothing failed", len(rets) == 1 and unparse(rets[0].value).endswith(" or None"), ex,
+          rets[0] if rets else ex.node, construct="extract:none")
 
 
 def operation_catch(ck, repo):
